@@ -36,14 +36,14 @@ type Result struct {
 
 // Fast mode (fast.go, build tag verif, needs the overlay hooks): set per request.
 var (
-	fastOn          bool
-	fastSetupFn     func(root, mod, baseDir string)
-	fastLoadDirFn   func(dir string) *srcInfo
-	fastLoadSrcFn   func(dir string) (*packages.Package, error)
-	fastProbeFn     func(dir string) (string, bool)
-	fastNewMockerFn func(job JobCfg, cfg moq.Config) (*moq.Mocker, error)
-	fastRealFindFn  func(pkgFlag, srcPath string) string
-	fastFindFn      func(pkgFlag, srcPath string) string
+	fastOn           bool
+	fastSetupFn      func(root, mod, baseDir string)
+	fastLoadDirFn    func(dir string) *srcInfo
+	fastLoadSrcFn    func(dir string) (*packages.Package, error)
+	fastProbeFn      func(dir string) (string, bool)
+	fastNewMockerFn  func(job JobCfg, cfg moq.Config) (*moq.Mocker, error)
+	fastRealFindFn   func(pkgFlag, srcPath string) string
+	fastFindFn       func(pkgFlag, srcPath string) string
 	fastFixedPointFn func(job JobCfg, res *Result)
 )
 
@@ -207,12 +207,12 @@ func workerMain() {
 	dec := json.NewDecoder(in)
 	for {
 		var req struct {
-			Job   JobCfg   `json:"job"`
-			Fmts  []string `json:"fmts"`
-			Facts bool     `json:"facts"`
-			Oracle bool    `json:"oracle"`
-			Reps   int     `json:"reps"`
-			Outside string  `json:"outside"`
+			Job     JobCfg   `json:"job"`
+			Fmts    []string `json:"fmts"`
+			Facts   bool     `json:"facts"`
+			Oracle  bool     `json:"oracle"`
+			Reps    int      `json:"reps"`
+			Outside string   `json:"outside"`
 			Fast    *struct {
 				Root, Mod, Base string
 				CheckFind       bool
@@ -308,6 +308,9 @@ func runOracles(job JobCfg, res *Result) {
 		}
 		if d := checkPanicMsgs(c, job); d != "" {
 			res.Checks["C07"] = d
+		}
+		if d := checkLocks(c); d != "" {
+			res.Checks["C05"] = d
 		}
 		d, own := checkSolo(job, c)
 		if d != "" && res.Checks["C20"] == "" {
